@@ -295,7 +295,7 @@ Definition sc_op_checks (m m' : mstate) (o : sc_op) (obs : list Z) : checks :=
     match nth_error (mcl m) h, nth_error (mlate m) h with
     | Some false, _ => if mscope m then [("sibling_read_undisturbed"%string, (r =? 0) || (r =? 1) || (r =? 9))] else []
     | Some true, Some true => [("closed_handle_read_fails"%string, (r =? 2) || (r =? 9))]
-    | Some true, _ => [("closed_handle_read_fails"%string, (r =? 2) || (r =? 3) || (r =? 1) || (r =? 9))]
+    | Some true, _ => [("closed_handle_read_fails"%string, (r =? 2) || (r =? 3) || (r =? 1) || (r =? 9) || (r =? 7))]
     | None, _ => []
     end
   | ONew, _ | OClose _, _ | OPClose _, _ | OPCloseW _ _, _ | OWrite _, _ | ORPoll _, _ => [("malformed_observation"%string, false)]
